@@ -204,6 +204,40 @@ pub fn main(run_once: RunOnce) -> i32 {
             quiet_stderr();
             catalog()
         }
+        Some("trace") => {
+            // evaluate one run index and print every invocation's event log (debugging aid for
+            // determinism doubts: run twice, diff)
+            let property = args.get(2).cloned().unwrap_or_default();
+            let i: u64 = args.get(3).and_then(|s| s.parse().ok()).unwrap_or(0);
+            let seed: u64 = arg_val(&args, "--seed").and_then(|s| s.parse().ok()).unwrap_or(1);
+            let name = arg_val(&args, "--name").unwrap_or_else(|| "trace".into());
+            let case = oracle::gen_case(&property, campaign::run_seed(seed, &property, i), oracle::Tier::Quick);
+            let base = campaign::scratch_base();
+            quiet_stderr();
+            let r = oracle::evaluate(&case, &base, &name);
+            let _ = std::fs::remove_dir_all(&base);
+            println!("run {i} digest {:016x} violations {:?}", r.event_digest, r.violations.iter().map(|v| v.signature()).collect::<Vec<_>>());
+            for (k, o) in r.outcomes.iter().enumerate() {
+                println!("--- outcome {k}: {:?} err={:?} digest={:016x} steps={}", o.class, o.err_text, o.digest(), o.steps);
+                for d in &o.diags {
+                    println!("  diag {} {}", d.0, d.1);
+                }
+                for op in &o.oplog {
+                    println!("  op {} {} {} {:?} {}", op.op, op.path, op.bytes, op.fault, op.result);
+                }
+                for c in &o.chanlog {
+                    println!("  chan {} task={} file={} q={}", c.ev, c.task, c.file, c.qlen);
+                }
+                for p in &o.panics {
+                    println!("  panic {}", p.location);
+                }
+                println!("  schedule {:?}", o.schedule);
+                for (k, v) in &o.after {
+                    println!("  after {k} {:016x}", crate::rng::fnv(&v.bytes));
+                }
+            }
+            0
+        }
         Some("show") => {
             // print the generated case of one run index (debugging aid)
             let property = args.get(2).cloned().unwrap_or_default();
